@@ -781,6 +781,8 @@ class Interp:
             return list(v.keys())
         if isinstance(v, DictItems):
             return v.items
+        if isinstance(v, EnumV):
+            return [v.member(nm) for nm in v.members]      # an enumeration class iterates over its members in definition order
         return self.unk(f'iteration over {type(v).__name__}', node, s)
 
     def bind_target(self, t, v, s):
